@@ -196,14 +196,14 @@ Definition mode_after (before : option mode) (o : outcome) : option mode :=
   if is_ok o then Some m_file else before.
 
 (* precreate_secure_database_file -> create_secure_directory(parent) when the parent does not exist:
-   create_dir_all creates every missing ancestor with the process default (umask) mode, then ONLY the
-   parent itself is chmod-ed to 0700.  `missing` = number of missing path components, the last one being
-   the database's parent directory; result = modes of the created directories, outermost first. *)
+   create_dir_all creates every missing ancestor with the process default (umask) mode, then (since the fix: every
+   directory that was created, not only the parent itself) is chmod-ed to 0700.  `missing` = number of missing path
+   components, the last one being the database's parent directory; result = modes of the created directories,
+   outermost first.  The umask default no longer matters. *)
 Fixpoint created_dir_modes (umask_default : mode) (missing : nat) : list mode :=
   match missing with
   | O => []
-  | S O => [m_dir]
-  | S m => umask_default :: created_dir_modes umask_default m
+  | S m => m_dir :: created_dir_modes umask_default m
   end.
 (* the sidecar files that exist when the constructor finishes get the file mode *)
 Definition sidecar_modes (existing : list bool) : list (option mode) :=
